@@ -536,14 +536,21 @@ func (g *gen) view(id int) *Case {
 		"SELECT a, s FROM b", "SELECT * FROM b", "SELECT a AS x, n + 1 AS y FROM b WHERE n > 0", "SELECT s, COUNT(*) AS c FROM b GROUP BY s",
 		"SELECT a FROM b WHERE s = 'it''s'", "SELECT a, upper(s) AS u FROM b ORDER BY a DESC LIMIT 2", "SELECT b.a, b2.n FROM b JOIN b AS b2 ON b.a = b2.a",
 		"SELECT DISTINCT s FROM b", "SELECT a, CASE WHEN n > 1 THEN 'big' ELSE 'small' END AS sz FROM b", "SELECT a FROM b WHERE s LIKE 'x%' OR n IS NULL")
-	cols := ""
-	if g.chance(4) && strings.HasPrefix(sel, "SELECT a, s FROM") {
-		cols = " (p, q)"
+	// an explicit column list (one in three of the views whose SELECT has exactly one / two output columns)
+	cols, tags, probes := "", []string{"view"}, []string{"SELECT * FROM v1", "SELECT COUNT(*) FROM v1", "INSERT INTO b VALUES (4, 'xz', 9)", "SELECT * FROM v1"}
+	if !strings.HasPrefix(sel, "SELECT * ") && g.chance(3) {
+		if strings.Contains(sel[:strings.Index(sel, " FROM ")], ",") {
+			cols = " (p, q)"
+		} else {
+			cols = " (p)"
+		}
+		tags = append(tags, "view-column-list")
+		probes = append(probes, "SELECT p FROM v1")
 	}
 	create := "CREATE VIEW v1" + cols + " AS " + sel
-	return &Case{ID: id, Kind: "view", Name: "v1", Create: create, Tags: []string{"view"},
+	return &Case{ID: id, Kind: "view", Name: "v1", Create: create, Tags: tags,
 		Prereq: []string{baseDDL, "INSERT INTO b VALUES (1, 'x1', 2), (2, 'it''s', NULL), (3, 'x1', 0)"},
-		Probes: []string{"SELECT * FROM v1", "SELECT COUNT(*) FROM v1", "INSERT INTO b VALUES (4, 'xz', 9)", "SELECT * FROM v1"}}
+		Probes: probes}
 }
 
 func (g *gen) trigger(id int) *Case {
